@@ -41,6 +41,20 @@ CHECKS = {
                 text="Every pavexc invocation made for the enumerated families (valid and rule-breaking): terminates, exit 0/1, "
                      "error diagnostic iff failure, no panic, and a failing run leaves the SDK already on disk byte-identical.",
                 ref="§4 C09"),
+    "C11": dict(engine="session_mc", cat="model_checking",
+                tech="explicit-state BFS over real Session/SessionStore objects (state = event history replayed on fresh objects), reference map model on every transition",
+                text="All reachable states of the session state machine for <=2 requests x <=3 operations (quick; thorough up to 3x2 / 2x4 completed) over "
+                     "23 operations, 2 keys, 2 values, presenting current/stale/no cookie, under all 32 session configurations; every return value, "
+                     "the store contents and probe requests with current/stale cookies are compared with a reference model; the search runs twice "
+                     "with different successor orders and the counts must agree.",
+                ref="§4 C11", note="States are merged modulo permutations of keys and values (stated in the evidence); TTL extension is exercised but deadlines "
+                                   "are not part of the key; the in-memory store stands in for the backend."),
+    "C12": dict(engine="session_mc", cat="model_checking",
+                tech="same explicit-state search; at every finalize point the real finalize_session x 128 cookie configurations x 6 crypto configurations",
+                text="Same search as C11; in every visited state the Debug output is searched for every known or later-revealed id; at every distinct "
+                     "finalize point the real middleware is called with every crypto configuration and cookie configuration: a cookie is attached only "
+                     "if it will be signed or encrypted (encrypted if client state is non-empty), otherwise Err and no cookie; attributes equal the configuration.",
+                ref="§4 C12", note="Full crypto x cookie product up to 2x2 histories; deeper boxes check the Debug leak only."),
     "C13": dict(engine="store_mc", cat="model_checking",
                 tech="explicit-state history enumeration + exhaustive schedule DFS (hand-rolled executor over hook H3) with linearizability oracle",
                 text="All operation histories up to the completed depth on both backends against a map-with-expiry reference; all "
@@ -91,8 +105,6 @@ NOT_YET = {
     "C07": "ROUTE family of the e2e engine not built yet in this round",
     "C08": "PLANT family of the e2e engine not built yet in this round",
     "C10": "seed/history sweep not built yet in this round",
-    "C11": "session_mc engine still under construction",
-    "C12": "session_mc engine still under construction",
 }
 
 
